@@ -196,7 +196,14 @@ def validate_params(rank, gp_type, n_samples, n_landmarks, landmarks):
         raise ValueError(message)
 
     # Validation logic for landmarks
-    validate_landmark_params(n_landmarks, landmarks)
+    if not (
+        gp_type == GaussianProcessType.FIXED
+        and landmarks is not None
+        and landmarks.shape[0] == n_samples < n_landmarks
+    ):
+        # With more requested landmarks than cells, the fixed type falls back to the
+        # cells themselves as landmarks (see compute_landmarks).
+        validate_landmark_params(n_landmarks, landmarks)
     if n_landmarks > n_samples and gp_type != GaussianProcessType.FIXED:
         logger.warning(
             f"n_landmarks={n_landmarks:,} is larger than the number of cells {n_samples:,}."
